@@ -42,7 +42,8 @@ def run(tier):
     thorough = tier == "thorough"
     binary = common.build_harness()
     lists = []
-    for cfg, nk, what in [("MC_Merge3.cfg", 3, "3 tables x 3 keys"), ("MC_Merge4.cfg", 2, "4 tables x 2 keys"), ("MC_Merge2e.cfg", 2, "2 tables x 2 keys with empty values")]:
+    for cfg, nk, what in [("MC_Merge3.cfg", 3, "3 tables x 3 keys"), ("MC_Merge4.cfg", 2, "4 tables x 2 keys"), ("MC_Merge2e.cfg", 2, "2 tables x 2 keys with empty values"),
+                          ("MC_Merge1e.cfg", 3, "1 table x 3 keys with empty values (a merge of ONE table must still apply the reduction)")]:
         behs, r = judge.gen_behaviours("Merge.tla", cfg, workers=8, outcome=o, what="all lists: " + what)
         lists.append((nk, behs))
         log("[C08] TLC enumerated %d lists (%s)" % (len(behs), what))
@@ -51,7 +52,7 @@ def run(tier):
     n3 = None if thorough else 1600
     n4 = None if thorough else 600
     chosen = []
-    for (nk, behs), cap in zip(lists, [n3, n4, None]):
+    for (nk, behs), cap in zip(lists, [n3, n4, None, None]):
         b = list(behs)
         rng.shuffle(b)
         chosen.append((nk, b[:cap] if cap else b))
@@ -67,10 +68,10 @@ def run(tier):
             if cases:
                 batches.append(("%s-k%d-%d" % (fam, nk, bi), keys, vals, cases))
     # seeded bigger lists
-    nbig = 30 if thorough else 6
+    nbig = 30 if thorough else 9
     for i in range(nbig):
         nk = rng.choice([20, 60, 200])
-        nt = rng.randrange(2, 9)
+        nt = rng.randrange(2, 9) if i % 3 else rng.choice([1, 9, 16, 33])   # one table; more tables than a small heap holds
         keys = concrete.key_family(rng.choice(["empty0", "be4", "ascii", "nonutf8"]), nk, rng)
         toks = ["v%d" % (t + 1) for t in range(nt)]
         vals = concrete.value_family(rng.choice(concrete.VALUE_FAMILIES), toks, rng)
